@@ -223,6 +223,24 @@ def run_case(case, wd):
         res["tags"] = json.loads(json.dumps(root.tags()))
     except Exception as e:  # noqa
         res["params_error"] = type(e).__name__ + ":" + str(e)[:200]
+    # path 5: the job folder prepared twice (GENERATE_ONLY) for the same identifier with OTHER tags: the parameter
+    # file is the one of the last submission
+    try:
+        from experimaestro import Task
+        if isinstance(root, Task) and root.__xpm__.job is None:
+            root.submit(run_mode=RunMode.GENERATE_ONLY)
+            pfile = root.__xpm__.job.path / "params.json"
+            b2 = identlib.Built(case["desc"], wd)
+            b2.export()
+            root2 = b2.allobjs[case["root"]]
+            if isinstance(root2, Task) and root2.__xpm__.job is None:
+                root2.tag("prep", 0)
+                root2.submit(run_mode=RunMode.GENERATE_ONLY)
+                res["prep_same_folder"] = (root2.__xpm__.job.path == root.__xpm__.job.path)
+                res["prep_tags_written"] = json.load(open(pfile))["tags"]
+                res["prep_tags"] = json.loads(json.dumps(root2.tags()))
+    except Exception as e:  # noqa
+        res["prep_error"] = type(e).__name__ + ":" + str(e)[:200]
     try:
         res["instance"] = instance_view(objects, None, b)
     except Exception as e:  # noqa
